@@ -280,7 +280,7 @@ package crlstore
 //@   ensures[C12,C20] temp_directory_is_new_and_carries_the_temp_name: err == nil ==> tempName(baseName(ret)) && !old($fs_dskexists[ret]) && $fs_dskexists[ret]
 //@   ensures (forall q string :: q != ret ==> $fs_dskhas[q] == old($fs_dskhas[q]) && $fs_dskexists[q] == old($fs_dskexists[q])) && $fs_dskpath == old($fs_dskpath)
 //@ func openDbWithRetries
-//@   props C12 C20 C08 C11 C18
+//@   props C09 C12 C20 C08 C11 C18
 //@   requires logger != nil
 //@   assigns X.fs, X.ldbhas, X.retry
 //@   fresh r0
